@@ -70,6 +70,14 @@ Proof.
   intros [A B C D] Hf Hh Hn Hb. constructor; rewrite ?Hf, ?Hh, ?Hn, ?Hb; auto.
 Qed.
 
+(* the invariant does not mention the field that changed: pick the hypothesis for which the four relevant fields agree *)
+Ltac same_S :=
+  match goal with
+  | Hs : invS ?x |- _ =>
+      solve [eapply invS_same with (s := x); [exact Hs | reflexivity | reflexivity | reflexivity | reflexivity]]
+  end.
+
+
 Lemma invS_files s fs' :
   invS s -> files_le (s_files s) fs' -> invS (set_files s fs').
 Proof.
@@ -87,7 +95,7 @@ Lemma chunk_get_S s i blk s' r :
 Proof.
   intros HI Hg. unfold chunk_get in Hg.
   destruct (nth_error (s_nodes s) i) as [nd|] eqn:Hn.
-  2:{ inversion Hg; subst. split; [eapply invS_same; eauto|]. repeat split; auto using files_le_refl. discriminate. }
+  2:{ inversion Hg; subst. split; [same_S|]. repeat split; auto using files_le_refl. discriminate. }
   destruct (n_chunk nd) as [b0|] eqn:Hc.
   - inversion Hg; subst; clear Hg.
     assert (Hpb : piece_bytes (s_files s) i = Some b0) by (eapply iS_nodes; eauto).
@@ -115,8 +123,8 @@ Qed.
 Lemma chunk_release_S s i blk : invS s -> invS (chunk_release s i blk).
 Proof.
   intros HI. unfold chunk_release.
-  destruct (nth_error (s_nodes s) i) as [nd|] eqn:Hn; [|eapply invS_same; eauto].
-  match goal with |- invS (if ?c then _ else _) => destruct c end; [eapply invS_same; eauto|].
+  destruct (nth_error (s_nodes s) i) as [nd|] eqn:Hn; [|same_S].
+  match goal with |- invS (if ?c then _ else _) => destruct c end; [same_S|].
   destruct HI as [A B C D]. constructor; simpl; auto.
   intros j nd' b Hj Hcj. destruct (nth_error_upd _ _ _ _ _ Hj) as [[-> ->] | [_ Hj']]; simpl in *.
   - destruct (Nat.eqb (pred (n_refs nd)) 0); [discriminate | eauto].
@@ -148,34 +156,34 @@ Qed.
 Lemma queue_S fuel : forall quick s, invS s -> invS (queue pl fuel quick s).
 Proof.
   induction fuel as [|fuel IH]; intros quick s HI; simpl.
-  - eapply invS_same; eauto.
+  - same_S.
   - destruct (Nat.leb (length (s_nodes s)) (s_pos s)).
-    { unfold queue_tail. destruct (Nat.eqb (out_val s) 0); [eapply invS_same; eauto | auto]. }
+    { unfold queue_tail. destruct (Nat.eqb (out_val s) 0); [same_S | auto]. }
     destruct (throttle (out_val s)); [auto|].
     destruct (next_range (s_ranges s) (s_pos s)) as [p|].
-    2:{ unfold queue_tail. match goal with |- invS (if ?c then _ else _) => destruct c end; eapply invS_same; eauto. }
-    assert (HI0 : invS (set_pos s p)) by (eapply invS_same; eauto).
+    2:{ unfold queue_tail. match goal with |- invS (if ?c then _ else _) => destruct c end; same_S. }
+    assert (HI0 : invS (set_pos s p)) by (same_S).
     destruct (mem_full (set_pos s p)).
     { destruct quick; [destruct (negb (Nat.eqb (out_val (set_pos s p)) 0)) | destruct (Nat.eqb (out_val (set_pos s p)) 0)];
-        try assumption; eapply invS_same; eauto. }
+        try assumption; same_S. }
     destruct (chunk_get pl (set_pos s p) p false) as [s1 r] eqn:Hg.
     destruct (chunk_get_S _ _ _ _ _ HI0 Hg) as (HI1 & Hh & Hb & Hle & Hok).
     destruct quick.
-    + destruct (negb (Nat.eqb (out_val s1) 0)); [eapply invS_same; eauto|].
+    + destruct (negb (Nat.eqb (out_val s1) 0)); [same_S|].
       destruct r as [b|[|]]; auto using chunk_release_S.
-      apply IH. eapply invS_same; eauto.
+      apply IH. same_S.
     + destruct r as [b|[|]].
-      * apply IH. apply check_chunk_S; [eapply invS_same; eauto|]. simpl. auto.
-      * apply IH. eapply invS_same; eauto.
-      * destruct (negb (Nat.eqb (out_val s1) 0)); [auto | eapply invS_same; eauto].
+      * apply IH. apply check_chunk_S; [same_S|]. simpl. auto.
+      * apply IH. same_S.
+      * destruct (negb (Nat.eqb (out_val s1) 0)); [auto | same_S].
 Qed.
 
 Lemma cleared_one_S s i : invS s -> invS (cleared_one s i).
 Proof.
   intros HI. unfold cleared_one. apply chunk_release_S.
   destruct (is_checking s); [|auto].
-  destruct (s_out s) as [[|k]|]; try (eapply invS_same; eauto; fail).
-  destruct (nth i (s_ranges s) false); eapply invS_same; eauto.
+  destruct (s_out s) as [[|k]|]; try (same_S).
+  destruct (nth i (s_ranges s) false); same_S.
 Qed.
 
 Lemma cleared_one_hq s i : s_hq (cleared_one s i) = s_hq s.
@@ -203,7 +211,7 @@ Proof.
 Qed.
 
 Lemma ht_clear_S s : invS s -> invS (ht_clear s).
-Proof. intros HI. eapply invS_same; eauto. Qed.
+Proof. intros HI. same_S. Qed.
 
 Lemma wrapper_close_S s : invS s -> invS (wrapper_close s).
 Proof.
@@ -213,10 +221,10 @@ Proof.
   destruct (s_open s1); [|auto].
   match goal with |- invS (set_nodes ?s3 []) => assert (Hx : invS s3) end.
   { assert (H2 : invS (set_files (set_open s1 false) (close_files (s_files s1)))).
-    { apply invS_files; [eapply invS_same; eauto | apply close_files_le]. }
+    { apply invS_files; [same_S | apply close_files_le]. }
     assert (H3 : invS (set_bits (set_files (set_open s1 false) (close_files (s_files s1))) None)).
     { destruct H2 as [A B C D]. constructor; simpl in *; auto. discriminate. }
-    match goal with |- invS (if ?c then _ else _) => destruct c end; [eapply invS_same; eauto | auto]. }
+    match goal with |- invS (if ?c then _ else _) => destruct c end; [same_S | auto]. }
   destruct Hx as [A B C D]. constructor; simpl; auto.
   intros i nd b Hn. destruct i; discriminate.
 Qed.
@@ -225,7 +233,7 @@ Lemma do_open_S s : invS s -> invS (do_open pl s).
 Proof.
   intros HI. unfold do_open. destruct (s_open s) eqn:Ho; [auto|].
   assert (H1 : invS (set_files (set_open s true) (queue_create (open_files (s_files s))))).
-  { apply invS_files; [eapply invS_same; eauto|].
+  { apply invS_files; [same_S|].
     eapply files_le_trans; [apply open_files_le | apply queue_create_le]. }
   destruct H1 as [A B C D]. constructor; simpl in *; auto.
   intros i nd b Hn Hc. apply nth_error_In in Hn. apply repeat_spec in Hn. subst. discriminate.
@@ -245,33 +253,33 @@ Proof.
       intros bl Hbl i Hi. inversion Hbl; subst. rewrite nth_repeat_false in Hi. discriminate. }
   clearbody s1.
   match goal with |- invS (if ?c then _ else _) => destruct c end; [auto|].
-  match goal with |- invS (if ?c then _ else _) => destruct c end; [eapply invS_same; eauto|].
-  apply queue_S. destruct (0 <? Params.c09_start_erases_delay)%N; eapply invS_same; eauto.
+  match goal with |- invS (if ?c then _ else _) => destruct c end; [same_S|].
+  apply queue_S. destruct (0 <? Params.c09_start_erases_delay)%N; same_S.
 Qed.
 
 Lemma do_stop_S s : invS s -> invS (do_stop s).
 Proof.
   intros HI. unfold do_stop. destruct (negb (is_checking s)); [auto|].
-  apply ht_clear_S. apply hq_remove_all_S. eapply invS_same; eauto.
+  apply ht_clear_S. apply hq_remove_all_S. same_S.
 Qed.
 
 Lemma do_tick_S s : invS s -> invS (do_tick s).
 Proof.
   intros HI. unfold do_tick. destruct (negb (s_delay s)); [auto|].
   destruct (negb (is_checking (set_delay s false))).
-  - apply wrapper_close_S. eapply invS_same; eauto.
+  - apply wrapper_close_S. same_S.
   - cbv zeta.
     assert (H2 : invS (set_out (if Nat.eqb (out_val (set_delay s false)) 0 then set_delay s false
                                 else set_ierr (set_delay s false)) None)).
-    { destruct (Nat.eqb (out_val (set_delay s false)) 0); eapply invS_same; eauto. }
-    match goal with |- context [s_hq ?x] => destruct (s_hq x) end; [auto | eapply invS_same; eauto].
+    { destruct (Nat.eqb (out_val (set_delay s false)) 0); same_S. }
+    match goal with |- context [s_hq ?x] => destruct (s_hq x) end; [auto | same_S].
 Qed.
 
 Lemma mark_completed_S s i :
   invS s -> valid (s_files s) i = true -> invS (mark_completed s i).
 Proof.
-  intros HI Hv. unfold mark_completed. destruct (s_bits s) as [b|] eqn:Hb; [|eapply invS_same; eauto].
-  destruct (nth i b true); [eapply invS_same; eauto|].
+  intros HI Hv. unfold mark_completed. destruct (s_bits s) as [b|] eqn:Hb; [|same_S].
+  destruct (nth i b true); [same_S|].
   destruct HI as [A B C D]. constructor; simpl; auto.
   intros bl Hbl j Hj. inversion Hbl; subst.
   destruct (nth_upd_bool _ _ _ _ Hj) as [[-> _] | Hx]; eauto.
@@ -288,16 +296,16 @@ Lemma receive_hash_done_S s i b :
   invS s -> piece_bytes (s_files s) i = Some b -> invS (receive_hash_done H pl expected s i b).
 Proof.
   intros HI Hpb. unfold receive_hash_done.
-  destruct (negb (s_open s)); [eapply invS_same; eauto|].
-  destruct (is_checking s); [|eapply invS_same; eauto].
+  destruct (negb (s_open s)); [same_S|].
+  destruct (is_checking s); [|same_S].
   apply chunk_release_S.
   match goal with |- context [if ?c then mark_completed s i else s] =>
     assert (H1 : invS (if c then mark_completed s i else s)); [destruct c eqn:Hc|] end.
   { apply mark_completed_S; auto. unfold ProofsA.valid. rewrite Hpb. exact Hc. }
   { auto. }
   match goal with |- context [s_out ?x] => set (s1' := x) in * end.
-  destruct (s_out s1') as [[|k]|]; try (eapply invS_same; eauto; fail).
-  apply queue_S. eapply invS_same; eauto.
+  destruct (s_out s1') as [[|k]|]; try (same_S).
+  apply queue_S. same_S.
 Qed.
 
 Lemma do_deliver_S s i : invS s -> invS (do_deliver H pl expected s i).
@@ -317,3 +325,9 @@ Proof.
 Qed.
 
 End Inv.
+
+Ltac same_S :=
+  match goal with
+  | Hs : invS _ _ _ _ ?x |- _ =>
+      solve [eapply invS_same with (s := x); [exact Hs | reflexivity | reflexivity | reflexivity | reflexivity]]
+  end.
